@@ -13,6 +13,9 @@ pub const WFAMS: [&str; 6] = ["non_negative", "potentials", "negative_dag", "pla
 
 /// A weighted digraph with isize weights. Returns (model, weight family).
 pub fn gen_case(r: &mut Rng, max: usize, allow_neg_circuit: bool) -> (Model, &'static str, &'static str) {
+    if r.below(64) == 0 {
+        return (gen::fixture_weighted(r), "repo_fixture_weighted", "repo_fixture_weighted");
+    }
     let wf = r.below(WFAMS.len());
     let n = if r.chance(0.3) { gen::algo_order(r, max, 65) } else { gen::small_order(r, max) };
     let big = n > max;
@@ -114,6 +117,17 @@ pub fn case(idx: u64, seed: u64, p: &Params, o: &mut CaseOut) {
         let want = ref_row(&m, s).map(|row| row.into_iter().map(|x| if x == isize::MAX { x } else { x * k }).collect::<Vec<isize>>());
         let mut bfm = BellmanFordMoore::new(&d, s);
         let got: Option<Vec<isize>> = bfm.distances().map(<[isize]>::to_vec);
+        // Asking the same object again, or a clone of it, must give the same
+        // answer. Only with unscaled weights: a second call relaxes a
+        // negative circuit for another n-1 rounds, which leaves the range the
+        // scale factor was computed for (values would wrap).
+        if k == 1 {
+            let mut cl = bfm.clone();
+            let again: Option<Vec<isize>> = bfm.distances().map(<[isize]>::to_vec);
+            o.check(again == got, "distances-differ-on-second-call", || format!("source {s}: first {got:?} second {again:?}"));
+            let cloned: Option<Vec<isize>> = cl.distances().map(<[isize]>::to_vec);
+            o.check(cloned == got, "distances-differ-on-a-clone", || format!("source {s}: first {got:?} clone {cloned:?}"));
+        }
         match (&want, &got) {
             (Err(()), Some(g)) => {
                 o.check(false, "Some-although-a-negative-circuit-is-reachable", || format!("source {s}: returned {g:?}"));
